@@ -791,6 +791,8 @@ pub fn mixed_kinds() -> Vec<(u32, K)> {
         (7, K::Nop),
         (3, K::Random),
         (1, K::RandomPerm),
+        (2, K::CuckooToPerm),
+        (1, K::DecomposeSwitch),
         (3, K::Prf),
         (1, K::PermPrf),
         (8, K::Dup),
@@ -819,6 +821,8 @@ pub fn meta_kinds() -> Vec<(u32, K)> {
         (7, K::B2A),
         (5, K::Nop),
         (2, K::Random),
+        (2, K::CuckooToPerm),
+        (1, K::DecomposeSwitch),
         (1, K::Prf),
         (4, K::Dup),
     ]
